@@ -53,6 +53,7 @@ func SaveBeforeAssociations(create bool) func(db *gorm.DB) {
 					elems := reflect.MakeSlice(reflect.SliceOf(fieldType), 0, 10)
 					distinctElems := reflect.MakeSlice(reflect.SliceOf(fieldType), 0, 10)
 					identityMap := map[string]bool{}
+					savedPointers := map[uintptr]bool{}
 					for i := 0; i < rValLen; i++ {
 						obj := db.Statement.ReflectValue.Index(i)
 						if reflect.Indirect(obj).Kind() != reflect.Struct {
@@ -78,7 +79,12 @@ func SaveBeforeAssociations(create bool) func(db *gorm.DB) {
 									identityMap[cacheKey] = true
 								}
 
-								distinctElems = reflect.Append(distinctElems, rv)
+								// the same in-memory record referenced by several parents is one
+								// record, also while it has no key to recognise it by
+								if !savedPointers[rv.Pointer()] {
+									savedPointers[rv.Pointer()] = true
+									distinctElems = reflect.Append(distinctElems, rv)
+								}
 							}
 						}
 					}
@@ -292,6 +298,7 @@ func SaveAfterAssociations(create bool) func(db *gorm.DB) {
 				}
 
 				identityMap := map[string]bool{}
+				savedPointers := map[uintptr]bool{}
 				appendToElems := func(v reflect.Value) {
 					if _, zero := rel.Field.ValueOf(db.Statement.Context, v); !zero {
 						f := reflect.Indirect(rel.Field.ReflectValueOf(db.Statement.Context, v))
@@ -316,7 +323,11 @@ func SaveAfterAssociations(create bool) func(db *gorm.DB) {
 									identityMap[cacheKey] = true
 								}
 
-								distinctElems = reflect.Append(distinctElems, elem)
+								// see the belongs to case: one in-memory record is saved once
+								if !savedPointers[elem.Pointer()] {
+									savedPointers[elem.Pointer()] = true
+									distinctElems = reflect.Append(distinctElems, elem)
+								}
 							}
 
 						}
